@@ -76,11 +76,11 @@ def run(run):
     run.rule = "one item per (configuration, dataset, flag); on every path one query per returned ranking; kernels: one query per post-condition"
     run.bounds["_bio_consert initial score [S] (n, departures)"] = kinit
     run.bounds["_improve_one_ranking inductive step [S] (n, element)"] = kstep
-    run.add_candidates(harness.pmap(validate_pulp, [0], workers=1))
-    run.add_candidates(harness.pmap(bk.init_score_check, kinit))
-    run.add_candidates(harness.pmap(bk.step_check, kstep))
+    run.pmap("validate_pulp", validate_pulp, [0], workers=1)
+    run.pmap("bk.init_score_check", bk.init_score_check, kinit)
+    run.pmap("bk.step_check", bk.step_check, kstep)
     items = sweep.make_items(run, cfgs, ["reported"], light=light, heavy=heavy)
-    run.add_candidates(harness.pmap(sweep.run_item, items, chunksize=2))
+    run.pmap("sweep.run_item", sweep.run_item, items, chunksize=2)
     run.extra["work_items"] = len(items)
     run.extra["stubs"] = sweep.install()
 
